@@ -78,6 +78,19 @@ def with_session(proj, which):
 
 SESSION_RULE = " || `session` lines: one real segment (fresh file, real ShmWriter), one long-lived ClockBoundClient and one long-lived C context (clockbound_open in the C client process) driven through 3-20 operations: publications, the generation/version word overwritten (writer dead mid-update, segment being re-initialised), re-opens, and paired now()/clockbound_now() calls at instants aimed at the cached record's thresholds (blur, 5 s, void-after, far beyond, 2^32-ns aliases); ten scripted sessions (one record ageing through every threshold on one client, grace-then-void with nothing in between, a record that becomes malformed asked repeatedly, repeated causality breach, odd/zero generation before the first call, frozen odd generation while the cached record ages, publications between calls, open before the first publication) always run; every answer must be what a fresh evaluation of the cached-record semantics gives, with the clock reads in the order REALTIME, MONOTONIC_COARSE on every call"
 
+def world_pubs(ans):
+    """the publications of a world line: list of token lists starting with 'rec'"""
+    return [g.split() for g in ans.split(' ; ') if g.startswith('rec ')]
+
+def proj_world(which):
+    def p(c):
+        a, b = world_pubs(c.impl), world_pubs(c.model)
+        if which == 'gen':      # the generation word after each publication
+            return ([t[-1] for t in a if t[-1].startswith('@')], [t[-1] for t in b if t[-1].startswith('@')])
+        # 'trust': as-of, bound and status of each published record
+        return ([(t[1:3], t[5:6], t[8:9]) for t in a], [(t[1:3], t[5:6], t[8:9]) for t in b])
+    return p
+
 CLIENT_TB = ["modelled, not verified: nix 0.26.4 TimeSpec arithmetic (mirrored operation by operation), Rust `as` casts, IEEE-754 binary64 as exact-rational round-to-nearest-even (exponent range not modelled; bit-compared with hardware on every case)"]
 
 PROPS = {
@@ -246,11 +259,11 @@ PROPS.update({
  ),
  'C09': dict(
     oracle='C09', also=['C13'],
-    gens=lambda seed, th: [['upd', seed, 100000 if th else 3000], ['poll', seed, 20000 if th else 2000]],
-    relevant=lambda c: kind(c) in ('upd', 'poll'),
-    project=lambda c: proj_upd(c) if kind(c) == 'upd' else proj_poll_c13(c),
+    gens=lambda seed, th: [['upd', seed, 100000 if th else 3000], ['poll', seed, 20000 if th else 2000], ['worldgen', seed, 20000 if th else 800]],
+    relevant=lambda c: kind(c) in ('upd', 'poll', 'world'),
+    project=lambda c: proj_upd(c) if kind(c) == 'upd' else (proj_world('trust')(c) if kind(c) == 'world' else proj_poll_c13(c)),
     nontrivial=lambda c: 'trustTemptation' in c.tags,
-    rule="same histories as C08; non-trivial = the history has a prefix without any synchronised report that ends in a FreeRunning-class outcome (leap 3, stale, in-grace silence or PHC failure), i.e. the situation in which trust could be advertised without a measurement",
+    rule="same histories as C08; non-trivial = the history has a prefix without any synchronised report that ends in a FreeRunning-class outcome (leap 3, stale, in-grace silence or PHC failure), i.e. the situation in which trust could be advertised without a measurement || plus the `world` histories of C01 (real ShmUpdater over a REAL ShmWriter on a file that survives the daemon, restarts that re-create the updater over the segment the previous incarnation left, one history in five starting cold with nothing but silences / unsynchronised reports / restarts): every record published with a trusted status must carry the (bound, as-of) of a record the model published with a trusted status in the same history",
     trusted_base=DAEMON_TB,
     technique='Lean 4 invariant proof over all message histories (status != Unknown only with bound/as-of of a synchronised report) + client corollary + differential correspondence on histories without synchronised reports',
     level_text='Theorem C09.model_holds: in every reachable updater state a non-Unknown status is published only with the bound and as-of of the most recent synchronised report; unknown_until_first_sync and client_sees_unknown give the property as stated (clients see Unknown at every uptime).',
@@ -258,11 +271,12 @@ PROPS.update({
  ),
  'C11': dict(
     oracle='C11', also=['C04'],
-    gens=lambda seed, th: [['genall'], ['crashgrid']],
-    relevant=lambda c: kind(c) in ('gen', 'crashpt'),
+    gens=lambda seed, th: [['genall'], ['crashgrid'], ['worldgen', seed, 20000 if th else 800]],
+    relevant=lambda c: kind(c) in ('gen', 'crashpt', 'world'),
+    project=lambda c: proj_world('gen')(c) if kind(c) == 'world' else (c.impl, c.model),
     nontrivial=lambda c: True,
     exhaustive=True,
-    rule="exhaustive: the real ShmWriter::write is run from each of the 65536 generation values poked into a tmpfs segment; the in-flight value is observed at the record-copy hook, the final value read from the file; all cases are non-trivial and distinct. Plus the `crashpt` lines of C04 (restart over every kind of prior file, death at every event, incl. an old file and a non-UTF-8 file name): a published generation must never return to 0, i.e. a valid segment is never wiped by a restart (verdict C04)",
+    rule="`world` lines (C01's histories: the real ShmUpdater publishing through a REAL ShmWriter, restarts in place): the generation word of the file is read after every publication of the daemon path (data, unsynchronised, silence) and must be even, non-zero and different from the one before. || exhaustive: the real ShmWriter::write is run from each of the 65536 generation values poked into a tmpfs segment; the in-flight value is observed at the record-copy hook, the final value read from the file; all cases are non-trivial and distinct. Plus the `crashpt` lines of C04 (restart over every kind of prior file, death at every event, incl. an old file and a non-UTF-8 file name): a published generation must never return to 0, i.e. a valid segment is never wiped by a restart (verdict C04)",
     trusted_base=["modelled: u16 wrapping arithmetic as Nat mod 65536"],
     technique='Lean 4 proof (omega) of the start/finish arithmetic for all 65536 values and of the invariant over all histories of completed/interrupted updates + exhaustive differential run of the real write()',
     level_text='Theorems C11.start_odd, finish_props, wrap, update_changes and history_invariant: for every start value and every history of start/finish/crash events the generation is odd during an update, even and non-zero when idle after a completed update, changes with every completed update and never returns to 0. The real write() is run from all 65536 start values on every run.',
